@@ -1,8 +1,56 @@
-TECHNIQUE = 'bounded symbolic execution of LLVM IR lowered to C: CBMC/SAT (cadical), sequential lifetime/ownership harness over an address-aware allocator model'
-ASSUMPTIONS = []
-OUTSIDE = ''
-INSTANCES = [
-    {'name': 'a8', 'src': 'once.cpp', 'engine': 'cbmc', 'defs': {'VF_ALIGN': 8, 'VF_SIZES': '0x10', 'VF_CHAIN': 2},
-     'unwind': 8, 'timeout': 600, 'rt_defs': {'VF_ADDR_AWARE': 1, 'VF_AA_DYNAMIC': 1},
-     'bounds': 'x'},
+TECHNIQUE = ('bounded symbolic execution of LLVM IR lowered to C: CBMC/SAT (cadical), sequential ownership/lifetime '
+             'harness over an address-aware allocator model, one template configuration per solver run')
+ASSUMPTIONS = [
+    'small-buffer allocator contract (stub in the harness replaces small_buffer_allocator.cpp): allocSmallBufferImpl(ordinal) '
+    'returns a block of 4<<ordinal bytes at an address that is a multiple of the block size (any such address modulo 512, '
+    'symbolic) and deallocSmallBufferImpl takes it back; that the real allocator honours this is property C41',
+    'malloc (reached through the real detail::alignedMalloc for blocks above 256 bytes) may return any 16-aligned address',
+    'documented usage contract of OnceFunction: exactly one of operator() / cleanupNotRun() is called on the object that '
+    'currently owns the callable; move assignment only into a default-constructed (obligation-free) OnceFunction; '
+    'moved-from objects are not used again',
+    'callables are trivially relocatable (documented requirement in once_callable_impl.h)',
+    'OnceFunction objects sit at a fixed odd multiple of alignof(OnceFunction) (least aligned admissible address class); '
+    'instances named *_symslot make the placement symbolic modulo 256',
 ]
+OUTSIDE = ('callable sizes/alignments other than the 54 listed configurations; move chains longer than the stated bound; '
+           'callables whose constructor throws; concurrent use; the real SmallBufferAllocator (C41)')
+
+SIZES = [1, 8, 48, 56, 57, 64, 128, 256, 300]
+ALIGNS = [1, 8, 16, 64, 128, 256]
+QUICK = {(1, 1), (8, 1), (56, 8), (57, 8), (64, 16), (256, 16), (300, 16), (56, 64), (64, 64), (128, 128), (256, 256), (300, 256)}
+RT = {'VF_ADDR_AWARE': 1, 'VF_AA_DYNAMIC': 1}
+
+
+def _inst(n, a, chain, tiers, suffix='', extra=None, tchain=None):
+    defs = {'VF_ALIGN': a, 'VF_SIZES': hex(1 << SIZES.index(n)), 'VF_CHAIN': chain}
+    defs.update(extra or {})
+    ra = (n + a - 1) // a * a
+    where = 'inline' if (ra <= 56 and a <= 64) else 'spilled'
+    i = {'name': 's%da%d%s' % (n, a, suffix), 'src': 'once.cpp', 'engine': 'cbmc', 'defs': defs,
+         'unwind': 8, 'timeout': 900, 'rt_defs': RT, 'tiers': tiers,
+         'bounds': 'callable of %d declared bytes, alignas(%d) (sizeof %d, %s); built by copy or by move; move chain of 0..%s '
+                   'links, each move construction / move assignment into a default-constructed object / self move '
+                   'assignment; then operator() or cleanupNotRun(); allocator block placement symbolic'
+                   % (n, a, ra, where, '%d (quick) / %d (thorough)' % (chain, tchain) if tchain else str(chain))}
+    if tchain:
+        d2 = dict(defs)
+        d2['VF_CHAIN'] = tchain
+        i['thorough'] = {'defs': d2}
+    return i
+
+
+INSTANCES = []
+for _a in ALIGNS:
+    for _n in SIZES:
+        if (_n, _a) in QUICK:
+            INSTANCES.append(_inst(_n, _a, 1, ['quick', 'thorough'], tchain=2))
+        else:
+            INSTANCES.append(_inst(_n, _a, 2, ['thorough']))
+# deeper / wider variants (thorough only)
+for _n, _a in [(56, 16), (57, 8), (300, 64)]:
+    INSTANCES.append(_inst(_n, _a, 3, ['thorough'], '_chain3'))
+for _n, _a in [(48, 16), (56, 8), (64, 64), (300, 8)]:
+    INSTANCES.append(_inst(_n, _a, 1, ['thorough'], '_symslot', {'VF_SYMSLOTS': 2}))
+# the library's other build configuration: every spill goes through the real alignedMalloc/alignedFree
+for _n, _a in [(57, 8), (64, 64), (128, 128), (256, 256)]:
+    INSTANCES.append(_inst(_n, _a, 1, ['thorough'], '_nosba', {'DISPENSO_NO_SMALL_BUFFER_ALLOCATOR': 1}))
